@@ -2,26 +2,60 @@ package hackpadfs
 
 import "strings"
 
+// stripErrPathPrefix converts the paths of a *PathError or *LinkError returned by a file system resolved with
+// Mount(name), which are relative to that file system, back into the caller's paths.
 func stripErrPathPrefix(err error, name, mountSubPath string) error {
 	if err == nil {
 		return err
 	}
-	prefix := strings.TrimSuffix(mountSubPath, name)
 	switch err := err.(type) {
 	case *PathError:
 		return &PathError{
 			Op:   err.Op,
-			Path: strings.TrimPrefix(err.Path, prefix),
+			Path: mountedPathToCaller(err.Path, name, mountSubPath),
 			Err:  err.Err,
 		}
 	case *LinkError:
 		return &LinkError{
 			Op:  err.Op,
-			Old: strings.TrimPrefix(err.Old, prefix),
-			New: strings.TrimPrefix(err.New, prefix),
+			Old: mountedPathToCaller(err.Old, name, mountSubPath),
+			New: mountedPathToCaller(err.New, name, mountSubPath),
 			Err: err.Err,
 		}
 	default:
 		return err
 	}
+}
+
+// mountedPathToCaller maps 'p', a path of the file system that Mount(name) resolved to, into the caller's
+// namespace, in which 'name' is the path that file system knows as 'mountSubPath'.
+func mountedPathToCaller(p, name, mountSubPath string) string {
+	switch {
+	case name == mountSubPath:
+		return p
+	case strings.HasSuffix(mountSubPath, "/"+name):
+		// sub-directory view: mountSubPath is base/name, strip base
+		return strings.TrimPrefix(p, strings.TrimSuffix(mountSubPath, name))
+	case name == ".":
+		// sub-directory view of its own root: mountSubPath is base
+		if p == mountSubPath {
+			return "."
+		}
+		return strings.TrimPrefix(p, mountSubPath+"/")
+	case strings.HasSuffix(name, "/"+mountSubPath):
+		// mount point: name is mountPoint/mountSubPath, restore mountPoint
+		return joinMountPoint(strings.TrimSuffix(name, "/"+mountSubPath), p)
+	case mountSubPath == ".":
+		// name is the mount point itself
+		return joinMountPoint(name, p)
+	default:
+		return p
+	}
+}
+
+func joinMountPoint(mountPoint, p string) string {
+	if p == "." {
+		return mountPoint
+	}
+	return mountPoint + "/" + p
 }
